@@ -5,6 +5,7 @@ import streams
 
 ID = "C16"
 THEOREMS = ["qmd_lookup_spec", "qmd_invisible", "qmeta_ghost", "inv_run", "qmdToAdd_spec"]
+LEANCHECKER_MODULES = ["Fadl.Props.C16", "Fadl.Lemmas.StreamInv"]  # re-checked by leanchecker in the thorough tier
 EXPLANATION = ("Theorems: for every well-formed history, a lookup on any stream returns the value most recently set for that key on the stream's own derivation path, or nothing (qmd_lookup_spec, by an invariant proved over every operation including the shallow-copy QMetaData makes and the merge with the copied node's dictionary); the field tree of every stream's query - hence dump, hash and executor argument - is the term the same chain builds without any QMetaData (qmd_invisible). Correspondence: lookups of every key on every stream after every step. Oracle: per-path dictionary reference in Python; dump/hash/executor-argument equality with a twin chain built without QMetaData.")
 ASSUMPTIONS = ["QMetaData dictionaries have pairwise distinct keys (they are Python dicts) - hypothesis Op.wf"]
 RULE = (
